@@ -34,8 +34,8 @@ pub fn meta(prop: &str) -> Meta {
             &["static_state_kept", "defer_delivered"],
         ),
         "C22" => (
-            "Each scenario is one generated DFIR program plus 2-3 semantics-preserving shape variants of it (extra identity()/map(|x| x), single-input union(), single-output tee(), union with an empty null() input, tee with a leg into null(), shuffled statement order), all compiled into the same binary and driven with the same recorded schedule; every variant must agree with the reference interpreter (hence pairwise). All variants are first compiled with the dfir_lang pipeline as a library: either all are accepted or all rejected (a split is a scenario of its own that re-runs the pipeline).",
-            &["static_state_kept"],
+            "Each scenario is one generated DFIR program plus 2-3 semantics-preserving shape variants of it (extra identity()/map(|x| x), single-input union(), single-output tee(), union with an empty null() input, tee with a leg into null(), shuffled statement order), all compiled into the same binary and driven with the same recorded schedule; every variant must agree with the reference interpreter (hence pairwise). All variants are first compiled with the dfir_lang pipeline as a library: either all are accepted or all rejected (a split is a scenario of its own that re-runs the pipeline). A second, rustc-level leg: for 7 fixed variant families (multiset_delta, unique, sort_by_key, fold_keyed, persist, enumerate realised pull-side / push-side behind a 2-output tee / behind a union / behind an identity; two `#mut` reference holders in one vs. separate subgraphs) every variant is a tiny crate of its own and `cargo check --keep-going` must accept all variants of a family or none (class compile_split/rustc/<family>).",
+            &["static_state_kept", "rustc_family_all_compile"],
         ),
         "C23" => (
             "Each scenario is one generated DFIR program built around a blocking consumer (anti_join neg, difference neg, fold, reduce, sort, persist, zip, cross_singleton over a fold, a `#singleton` reference to a fold, join, fold_keyed) whose blocking input is produced by a random same-tick pipeline of depth 1-6 (maps, filters, unions with other sources, tees, nested blocking operators).",
